@@ -1,18 +1,26 @@
-import ZvbiModel.Search.LemmasFactor
+import ZvbiModel.Search.LemmasCache
 /-!
 # Specification side of C17 and the full-strength statements that are NOT proved
 
 `Matches`: what "the page contains the pattern" means (the matcher parameter applied to the whole page text).
-`search_exact_full`, `walk_complete_full`: the property at full strength.  Both are FALSE on the current code
-(Props/C17.lean: `start_page_skipped_counterexample`, `stats_min_counterexample`, `stats_count_counterexample`,
-`walk_order_counterexample_any`; and, for the real matcher, `matcher_quirk_counterexample`); they are kept here as
-`def ... : Prop` so that the gap between what is proved and what the property demands stays visible.
+`passRank`: the order in which a forward pass from (P, S) has to report pages (ascending from the start position,
+wrapping once).  `walk_complete_full`, `search_exact_full`: the property at full strength over ALL store histories.
+What is proved (Props/C17.lean) is the same under the explicit exclusion of finding C17-D2 (`NoWrap`: the 16 bit
+counter `n_subpages` has not wrapped, fewer than 65536 cached pages per page number) - `walk_complete_cached` - and,
+for `search_exact`, per call instead of per pass (`search_exact_first_call`, `search_exact_not_found`,
+`search_success_sound`).  They are kept here as `def ... : Prop` so that the gap stays visible.
 -/
 namespace Zvbi.Search
 
-/-- page (p, s) is cached as a level one page and its text (rows 1..23) contains the pattern -/
+/-- page (p, s) is cached as a level one page and its text (rows 1..23) contains the pattern (`lookupX`: of several
+    cached pages with the same number the look-ups only ever see the first of the chain) -/
 def Matches (exec : Exec) (c : Cache) (p s : Nat) : Prop :=
-  ∃ e, lookup c p s = some e ∧ e.func = FUNC_LOP ∧ (exec {} (hayFwd e.text (-1) 0).1).isSome
+  ∃ e, lookupX c p s = some e ∧ e.func = FUNC_LOP ∧ (exec {} (hayFwd e.text (-1) 0).1).isSome
+
+/-- distance of page (q, t) from the start position (P, S) of a forward pass: ascending page / sub-page numbers,
+    wrapping behind 8FF.3F7F to 100.0 -/
+def passRank (P S q t : Int) : Int :=
+  if key q t ≥ key P S then key q t - key P S else key q t - key P S + 0x900 * 65536
 
 /-- successive `vbi_search_next` calls: (status, page formatted last) -/
 def runNexts (exec : Exec) : Cache → SearchSt → List Int → List (Res × Nat × Nat)
@@ -21,21 +29,26 @@ def runNexts (exec : Exec) : Cache → SearchSt → List Int → List (Res × Na
     let o := searchNext exec walkFuel c s d
     (o.res, o.st.pgPgno, o.st.pgSubno) :: runNexts exec o.cache o.st ds
 
-/-- OPEN, false on the current code.  A fresh forward search: the calls up to the first NOT_FOUND return exactly the
-    matching pages (each at least once: one call per occurrence), never a page that does not match, and NOT_FOUND
-    comes after at most one call per occurrence. -/
+/-- OPEN (not proved; the per-call theorems of Props/C17.lean are its building blocks).  A fresh forward search on
+    any reachable cache: the calls up to the first NOT_FOUND return exactly the matching pages (each at least once:
+    one call per occurrence), never a page that does not match, and NOT_FOUND comes after at most one call per
+    occurrence. -/
 def search_exact_full : Prop :=
-  ∀ (exec : Exec) (c : Cache) (P S : Int) (s0 : SearchSt) (n : Nat), PgOk P → searchNew P S 1 = some s0 →
+  ∀ (exec : Exec) (ops : List PutOp) (P S : Int) (s0 : SearchSt) (n : Nat), (∀ o ∈ ops, o.subno ≤ 0x3F7F) →
+    PgOk P → searchNew P S 1 = some s0 →
     (∀ f t ms me, exec f t = some (ms, me) → ms < me) →
+    let c := build ops
     let rs := runNexts exec c s0 (List.replicate n 1)
     let pass := rs.takeWhile (fun r => r.1 = .ret SEARCH_SUCCESS)
     (∀ r ∈ pass, Matches exec c r.2.1 r.2.2) ∧
     (pass.length < n → ∀ p s, Matches exec c p s → ∃ r ∈ pass, r.2 = (p, s))
 
-/-- OPEN, false on the current code.  Every cached page is handed to the callback exactly once per sweep. -/
+/-- OPEN.  Every cached page is handed to the callback in every sweep, after EVERY history of page stores.  Proved
+    with the additional hypothesis `NoWrap (build ops)` (`walk_complete_cached`); without it the statement fails at
+    65536 cached pages of one page number (C17-D2, 16 bit `n_subpages`). -/
 def walk_complete_full : Prop :=
-  ∀ (c : Cache) (pgno subno dir : Int), PgOk pgno → dir = 1 ∨ dir = -1 →
-    ∀ (q : Nat) (e : Entry), PgOk q → e ∈ (c.slots q).chain →
-      ((q : Int), (e.subno : Int), true) ∈ walkPositions c pgno subno dir
+  ∀ (ops : List PutOp) (pgno subno dir : Int), (∀ o ∈ ops, o.subno ≤ 0x3F7F) → PgOk pgno → dir = 1 ∨ dir = -1 →
+    ∀ (q : Nat) (e : Entry), PgOk q → e ∈ ((build ops).slots q).chain →
+      ((q : Int), (e.subno : Int), true) ∈ walkPositions (build ops) pgno subno dir
 
 end Zvbi.Search
